@@ -1092,4 +1092,67 @@ theorem dist2_triangle (p q r : Pt) : dist2 q r ≤ 2 * (dist2 p q + dist2 p r) 
         simp only [dist2]
         nlinarith [mul_self_nonneg (2 * x - y - z)]
 
+
+/-! ### anchor rule versus chain rule -/
+
+theorem consHead_inj {α : Type} {x : α} {G G' : List (List α)} (hG : G ≠ []) (hG' : G' ≠ [])
+    (h : consHead x G = consHead x G') : G = G' := by
+  cases G with
+  | nil => exact absurd rfl hG
+  | cons g gs =>
+    cases G' with
+    | nil => exact absurd rfl hG'
+    | cons g' gs' =>
+      simp only [consHead, List.cons.injEq] at h
+      obtain ⟨⟨_, h1⟩, h2⟩ := h
+      rw [h1, h2]
+
+theorem consHead_head_ne_nil {α : Type} (x : α) (G : List (List α)) :
+    ∀ g gs, consHead x G = g :: gs → g ≠ [] := by
+  intro g gs h
+  cases G with
+  | nil => simp only [consHead, List.cons.injEq] at h; rw [← h.1]; simp
+  | cons g0 gs0 => simp only [consHead, List.cons.injEq] at h; rw [← h.1]; simp
+
+/-- the two walks coincide exactly when the two rules take the same decision at every step -/
+theorem walk_anchor_eq_chain_iff (t : Rat) (items : List Item) : ∀ ra rp : Rat,
+    walk .anchor t ra items = walk .chain t rp items ↔
+      rulesAgree t ra rp (items.map (fun x => norm2 x.2)) = true := by
+  induction items with
+  | nil => intro ra rp; simp [walk, rulesAgree]
+  | cons x rest ih =>
+    intro ra rp
+    simp only [walk, List.map_cons, rulesAgree, Bool.and_eq_true, beq_iff_eq]
+    by_cases h1 : normFar t ra (norm2 x.2) = true <;> by_cases h2 : normFar t rp (norm2 x.2) = true
+    · simp only [h1, h2, if_true, true_and, List.cons.injEq]
+      rw [← ih (norm2 x.2) (norm2 x.2)]
+      constructor
+      · intro h; exact consHead_inj (walk_ne_nil _ _ _ _) (walk_ne_nil _ _ _ _) h
+      · intro h; rw [h]
+    · have h2' : normFar t rp (norm2 x.2) = false := by simpa using h2
+      simp only [h1, h2', if_true, Bool.false_eq_true, if_false]
+      constructor
+      · intro h
+        exfalso
+        have := consHead_head_ne_nil x (walk .chain t (norm2 x.2) rest) [] _ h.symm
+        exact this rfl
+      · intro h; exact absurd h.1 (by simp)
+    · have h1' : normFar t ra (norm2 x.2) = false := by simpa using h1
+      simp only [h1', h2, if_true, Bool.false_eq_true, if_false]
+      constructor
+      · intro h
+        exfalso
+        have := consHead_head_ne_nil x (walk .anchor t ra rest) [] _ h
+        exact this rfl
+      · intro h; exact absurd h.1 (by simp)
+    · have h1' : normFar t ra (norm2 x.2) = false := by simpa using h1
+      have h2' : normFar t rp (norm2 x.2) = false := by simpa using h2
+      simp only [h1', h2', true_and, Bool.false_eq_true, if_false]
+      rw [← ih ra (norm2 x.2)]
+      constructor
+      · intro h; exact consHead_inj (walk_ne_nil _ _ _ _) (walk_ne_nil _ _ _ _) h
+      · intro h
+        have : walk .anchor t ra rest = walk .chain t (norm2 x.2) rest := by simpa using h
+        simp [this]
+
 end PorepyVerif.C34
